@@ -11,6 +11,16 @@ from lib.vplib import *
 
 U = [1, 2, 3, 4, 5, 6]
 
+REGISTRY = dict(
+    category="proof",
+    text="Coq model of ModuleGraph+tsort (coq/Graph/Model.v) with theorems over all operation histories, tied to the Rust "
+         "code by step-wise simulation of generated histories from the implementation's own state; a plain reference "
+         "graph (coq/Graph/Spec.v, extracted) judges every answer.",
+    note="Trusted: Coq kernel, extraction (ExtrOcamlBasic) + generic OCaml driver, harness/graph. FxHash Set/Dict "
+         "modelled as duplicate-free lists; rename only to a fresh path; is_dir() false.",
+    technique="Coq proof over hand model + step-wise correspondence (extracted model vs ModuleGraph) + extracted reference-graph judge",
+    design="DESIGN.md §4 C21")
+
 
 def gen_history(rng, maxlen, universe):
     ops = []
